@@ -784,6 +784,26 @@ def gen_c10(rng, tier):
     return cases
 
 
+def gen_c14(rng, tier):
+    """application cases + a sweep through the real UDP layer: question type x class (incl. the mDNS unicast-response
+    bit 0x8000, ANY, CHAOS) x well-known DNS-family destination ports x one or two questions"""
+    cases = gen_appcases(['dns', 'dns', 'dns', 'raw'], tcp=False)(rng, tier)
+    w = World(rng, selfmode=False, denymode=False)
+    ops = []
+    name = b'\x03www\x07example\x03com\x00'
+    for dport in (53, 5353, 5355, 137, 853, 0, 65535, rng.u16()):
+        for qt in (1, 28, 255, 0x8001, 0):
+            for qc in (1, 0x8001, 255, 3, 0, 0x8000):
+                for extra in (False, True):
+                    qs = name + struct.pack('>HH', qt, qc)
+                    if extra:
+                        qs = name + struct.pack('>HH', 1, 1) + qs
+                    q = struct.pack('>HHHHHH', rng.u16(), 0x0100, 2 if extra else 1, 0, 0, 0) + qs
+                    ops.append(('F', w.udp_frame(False, rng.u16() | 1024, dport, q)))
+    cases.append(acase(w, ops, ['dns-type-class-port-sweep']))
+    return cases
+
+
 # ----------------------------------------------------------------------------- property table
 
 PROPS = {
@@ -801,7 +821,7 @@ PROPS = {
                 rule='HTTP request grammar (9 verbs, targets incl. non-UTF-8/CR/NUL, versions, 0..n headers, CRLF/LF) + single faults (unknown verb, '
                      'missing SP, bad version, header without colon, unterminated, lower case, two spaces) + raw mutations, over UDP and TCP, any port; '
                      'non-trivial = request of the strict grammar, or one outside the relaxed language that starts like HTTP'),
-    'C14': dict(gen=gen_appcases(['dns', 'dns', 'dns', 'raw'], tcp=False), judge='C14', judge_mode='app', proj=proj_headers,
+    'C14': dict(gen=lambda rng, tier: gen_c14(rng, tier), judge='C14', judge_mode='app', proj=proj_headers,
                 rule='DNS messages (ids, flag words, 0..k questions, label layouts, type/class grids, QR=1, extra sections, truncation) over UDP; '
                      'non-trivial = IN/A query over IPv4 (answer checked by the independent parser) or non-IN/A / truncated message (silence checked)'),
     'C15': dict(gen=gen_appcases(['stun', 'stun', 'stun', 'raw']), judge='C15', judge_mode='app', proj=proj_headers,
@@ -1355,13 +1375,15 @@ def explore_c11(prop, pd, tier, rng, corpus_cases):
     cases = []
     sport = [2000]
 
+    nflow = [0]
     isns = [5, 5, 5, 0x7fffffff - 20, 0x80000000 - 3, 0xffffffff - 20, 0xfffffffd, 0x7fffffff - 8000, 0]
 
     def flow_case(s, cuts, tag, acks=False):
         sport[0] = (sport[0] + 1) % 60000 + 2000
         frames = []
         skip = set()
-        seq = isns[sport[0] % len(isns)]      # the stream crosses 2^31 or 2^32 for some flows
+        nflow[0] += 1
+        seq = isns[nflow[0] % len(isns)]      # the stream crosses 2^31 or 2^32 for some flows
         pos = 0
         ck = w.cookie(w.cl4, w.my4, sport[0], 80)
         for cpos in list(cuts) + [len(s)]:
